@@ -25,7 +25,8 @@ def plan_calls(rng, ver, n):
         arcs = gen.rarcs(rng, 6)
         if k == "toolarge":
             # does not fit the buffer: must raise SnmpEncodeError, send nothing, and leave no trace in the pooled buffers
-            calls.append({"op": "toolarge", "oids": [gen.rarcs(rng, 8) for _ in range(400)]})
+            # enough OIDs (>= 12 octets of varbind each) to exceed the message buffer of the current sources by a wide margin
+            calls.append({"op": "toolarge", "oids": [gen.rarcs(rng, 8) for _ in range(max(400, vf.constant("BUF_MAX_SIZE", 4080) // 8))]})
         elif k == "deadsend":
             # a send() that fails in the kernel (connected UDP socket to a closed port: the second send reports ECONNREFUSED)
             calls.append({"op": "deadsend", "oids": [arcs]})
@@ -238,7 +239,7 @@ def api_main(g, job):
             if out.get("exc") != "SnmpEncodeError":
                 bad.append("oversize-outcome: %s instead of SnmpEncodeError" % (out.get("exc") or out.get("value")))
             if bad:
-                emitted.append({"session": i, "config": ver, "config_full": cf_view(cf), "call": "get_many(400 OIDs)", "call_full": {"op": "toolarge"},
+                emitted.append({"session": i, "config": ver, "config_full": cf_view(cf), "call": "get_many(%d OIDs)" % len(call["oids"]), "call_full": {"op": "toolarge"},
                                 "datagram": "", "history": st["history"][-5:], "model_line": None, "oracle": bad})
             st["history"].append("toolarge")
             continue
